@@ -1889,6 +1889,30 @@ def unoption_or_chain(f):
     return f
 
 
+def unmatches_macro(f):
+    """R6: `matches!(E, PAT)` -> `(match E { PAT => true, _ => false })`; `matches!(E, PAT if GUARD)` -> `(match E { PAT => GUARD, _ => false })` (E, PAT, GUARD verbatim)"""
+    n = 0
+    while True:
+        m = re.search(r'\bmatches!(\()', f.body)
+        if not m:
+            break
+        close = match_brace(f.body, m.start(1))
+        parts = _split_top_commas(f.body[m.start(1) + 1:close])
+        if len(parts) < 2:
+            break
+        e, pat = parts[0].strip(), ','.join(parts[1:]).strip().rstrip(',').strip()
+        mg = re.search(r'\s+if\s+', pat)
+        if mg:
+            pat, guard = pat[:mg.start()].strip(), pat[mg.end():].strip()
+        else:
+            guard = 'true'
+        f.body = f.body[:m.start()] + f'(match {e} {{ {pat} => {guard}, _ => false }})' + f.body[close + 1:]
+        n += 1
+    if n:
+        f.rewrites.append(('R6', f'{n}x matches!(E, PAT [if GUARD])', '(match E { PAT => GUARD / true, _ => false })'))
+    return f
+
+
 def pull_new_struct_fields(u, relpath, struct_name, known=(), key_types=('ExprId', 'WitnessId', 'usize', 'u32', 'bool')):
     """R14: the fields of the real `struct NAME { .. }` the unit's cut does not know (`known` = kept + deliberately dropped) and whose type is a plain value or a std collection of
     identifier types: each is carried into the unit's struct VERBATIM, so that a function under contract that consults a newly added bookkeeping field is judged through its
